@@ -16,16 +16,16 @@ BUILD = os.path.join(VERIF, '.build')
 TARGET = os.path.join(BUILD, 'target')
 HARNESS = os.path.join(VERIF, 'harness')
 DRV = os.path.join(VERIF, 'drvmux')          # routes each request to its component's driver executable
-DRV_EXES = ['drv', 'drv_walk', 'drv_print', 'drv_cli', 'drv_boxp', 'drv_stream', 'drv_time', 'drv_patsel', 'drv_frender', 'drv_regex', 'drv_layout', 'drv_srch', 'drv_jrender', 'drv_wproto', 'drv_tarm', 'drv_fwalk', 'drv_summ', 'drv_cap', 'drv_memgeo', 'drv_regexe2e', 'drv_lskel', 'drv_evtxr', 'drv_gskel']
+DRV_EXES = ['drv', 'drv_walk', 'drv_print', 'drv_cli', 'drv_boxp', 'drv_stream', 'drv_time', 'drv_patsel', 'drv_frender', 'drv_regex', 'drv_layout', 'drv_srch', 'drv_jrender', 'drv_wproto', 'drv_tarm', 'drv_fwalk', 'drv_summ', 'drv_cap', 'drv_memgeo', 'drv_regexe2e', 'drv_lskel', 'drv_evtxr', 'drv_gskel', 'drv_wskel']
 # which driver executables a property's check needs (all are built; only these can break it)
 DRV_NEEDED = {'C10': ['drv', 'drv_evtxr'], 'C02': ['drv', 'drv_print', 'drv_srch', 'drv_lskel', 'drv_gskel'], 'C03': ['drv', 'drv_srch'], 'C09': ['drv', 'drv_jrender', 'drv_jskel'], 'C12': ['drv', 'drv_boxp', 'drv_print', 'drv_patsel', 'drv_fwalk', 'drv_lskel', 'drv_gskel'], 'C04': ['drv_time', 'drv_regex', 'drv_patsel', 'drv_cap', 'drv_regexe2e'], 'C08': ['drv', 'drv_frender', 'drv_layout', 'drv_fwalk'], 'C06': ['drv', 'drv_wproto', 'drv_cskel', 'drv_jskel'], 'C07': ['drv', 'drv_wproto', 'drv_cskel'], 'C01': ['drv', 'drv_cskel'], 'C05': ['drv_stream', 'drv_tarm'], 'C11': ['drv_time'], 'C13': ['drv_print'], 'C14': ['drv_cli'],
-              'C15': ['drv_walk'], 'C17': ['drv_stream', 'drv_memgeo'], 'C19': ['drv', 'drv_print', 'drv_summ', 'drv_cskel']}
+              'C15': ['drv_walk', 'drv_wskel'], 'C17': ['drv_stream', 'drv_memgeo'], 'C19': ['drv', 'drv_print', 'drv_summ', 'drv_cskel']}
 # which harness components (cargo features `c_<name>` of /verif/harness) a property's check runs. The harness is normally built with all
 # of them; if that build fails (a component no longer compiles against the current /repo) the build is retried with only the components
 # this property needs, so a broken component raises an alarm only for the properties tied through it.
 HARNESS_NEEDED = {'C01': [], 'C02': ['gate', 'line', 'proc', 'prt', 'srch', 'sysl', 'syslc', 'lskel', 'gskel'], 'C03': ['proc', 'srch', 'sysl', 'fixedfile'], 'C04': ['patsel', 'rgx', 'time', 'capx'],
                   'C05': ['asm', 'strm', 'tarmember'], 'C06': [], 'C07': [], 'C08': ['fixed', 'fixedfile', 'frender', 'layout', 'fixedwalk'], 'C09': ['jrender'], 'C10': ['evtxr'], 'C11': ['year'],
-                  'C12': ['boxp', 'gate', 'line', 'patsel', 'proc', 'prt', 'fixedwalk', 'lskel', 'gskel'], 'C13': ['prt'], 'C14': [], 'C15': ['walk', 'walktar'], 'C16': ['path'], 'C17': [], 'C18': [],
+                  'C12': ['boxp', 'gate', 'line', 'patsel', 'proc', 'prt', 'fixedwalk', 'lskel', 'gskel'], 'C13': ['prt'], 'C14': [], 'C15': ['walk', 'walktar', 'wskel'], 'C16': ['path'], 'C17': [], 'C18': [],
                   'C19': ['prt', 'summ']}
 S4H = os.path.join(TARGET, 'release', 's4h')
 S4 = os.path.join(TARGET, 'release', 's4')
